@@ -7,7 +7,8 @@ CONSTANTS
  Ns = {2, 3, 4}
  MsgVecs <- MV23b
  CCoins <- AllZq
- SCoins <- C4a
+ SCoins <- C3a
  Tamper = FALSE
+ PowM <- TabPowM
 INVARIANTS Correct HonestAbort Refusal OneOnly Curious CuriousPairs
 CHECK_DEADLOCK FALSE
